@@ -129,6 +129,9 @@ func init() {
 	register("C20", "exploration", func(r *ev.Run, thorough bool) {
 		maxLen := 3
 		others := codeAlphabetStrings(maxLen)
+		// white-box alphabet: every string literal of the library's current source as a code
+		others = append(others, sourceLiteralCodes()...)
+		r.Set("source_literals_offered_as_codes", len(sourceLiteralCodes()))
 		var evals, distinct int64
 		for _, ver := range []int{3, 2} {
 			for _, en := range lib.Enums(ver) {
